@@ -4,9 +4,12 @@
 (* outside the penalty table; every request (automatic / each fitting fixed mode, uni- and bidirectional);     *)
 (* every margin the reverse direction may show.  A library is a non-decreasing sequence of mode codes          *)
 (* (multisets: the rule does not depend on the order of the modes in the library).                             *)
+(* For the libraries of <= WideModes modes two more dimensions are explored: the configuration of the add/drop *)
+(* stages (profiles listed in any order, profile id 0 selected / nothing selected / no profile at all) and     *)
+(* batches of two requests with the same ends and mode on equal or different routes.                           *)
 EXTENDS Feasibility, Json, TLC
 
-CONSTANT MaxModes
+CONSTANTS MaxModes, WideModes
 
 PenInf == 9                                      \* margin code: an impairment outside the mode's penalty table
 Margins == <<-2, -1, 0, 1, 2, PenInf>>
@@ -27,13 +30,27 @@ MCLibs == LibsOver(0..(NCodes - 1))
 \* a sub-model for the reachability witnesses: fitting modes with margins -1, 0, +1 only
 WitnessCodes == {c \in 0..(NCodes - 1) : Fields(c).f = 1 /\ Fields(c).d \in {-1, 0, 1}}
 MCWitnessLibs == LibsOver(WitnessCodes)
-MCAdds == <<250, 250>>
+\* add/drop stage configurations: P lists add profile 3 BEFORE add profile 0 and drop profile 2 before drop profile 1
+P == <<[id |-> 3, kind |-> "add", inv |-> 100], [id |-> 0, kind |-> "add", inv |-> 400],
+       [id |-> 2, kind |-> "drop", inv |-> 150], [id |-> 1, kind |-> "drop", inv |-> 700]>>
+St(kind, sel, profiles) == [kind |-> kind, sel |-> sel, profiles |-> profiles, dflt |-> 250]
+MCDefaultStages == <<St("add", NONE, <<>>), St("drop", NONE, <<>>)>>
+MCStageConfigs == {MCDefaultStages,
+                   <<St("add", NONE, P), St("drop", NONE, P)>>,         \* nothing selected: first listed of the kind
+                   <<St("add", 0, P), St("drop", NONE, P)>>,            \* profile 0 selected on the add degree
+                   <<St("add", 3, P), St("drop", 1, P)>>}
+MCRoutes == {1, 2}
+MCScenarios(l) ==
+  IF Len(l) <= WideModes
+  THEN {[stages |-> s, routes |-> <<1>>] : s \in MCStageConfigs}
+       \cup {[stages |-> MCDefaultStages, routes |-> <<a, b>>] : a, b \in MCRoutes}
+  ELSE {[stages |-> MCDefaultStages, routes |-> <<1>>]}
 MCLineInv == (32 :> 3000) @@ (64 :> 5000)
 MCRevMargins == {-1000000, 0, 1000000, -Inf}
 
 \* B2: one JSON line per library: the modes and, computed by the specification, the set of acceptable outcomes
 \* of a unidirectional automatic request and of a unidirectional request fixing each fitting mode
-Emit == ~(pc = "start" /\ req.auto /\ ~req.bidir)
+Emit == ~OncePerLib
         \/ PrintT("@@" \o ToJson([lib   |-> [i \in DOMAIN lib |-> Fields(lib[i].code)],
                                   auto  |-> AutoAcceptableSet(lib),
                                   fixed |-> [i \in DOMAIN lib |-> FixedAcceptableSet(lib[i], lib[i], FALSE)]]))
@@ -42,5 +59,8 @@ NoNext == FALSE /\ UNCHANGED vars
 \* reachability witnesses (negated: TLC must find a counterexample to each, see harness/checks/c13.py)
 WitnessManyUpdates == ~(nUpdates >= 3 /\ Done)
 WitnessReverseBlocks == ~(Done /\ req.auto /\ out.block = NotFeas)
+WitnessProfileZero == ~(last # 0 /\ stages[1].sel = 0 /\ rx = line + lib[last].tx + 400 + 150)
+WitnessOtherRoute == ~(Done /\ k = 2 /\ routes[1] # routes[2] /\ RevRan /\ routes[1] \in DOMAIN revOf /\ rev # revOf[routes[1]])
+WitnessSameRoute == ~(Done /\ k = 2 /\ routes[1] = routes[2] /\ RevRan)
 WitnessUnjudgedPick == ~(Done /\ out.block = NoBlock /\ out.sel # 0 /\ Unjudged(lib[out.sel]))
 ==============================================================================
